@@ -22,7 +22,7 @@ import time
 
 VERIF = os.path.dirname(os.path.abspath(__file__))
 REPO = os.environ.get("VERIF_REPO", "/repo")
-BUILD = os.path.join(VERIF, ".build")
+BUILD = os.path.join(VERIF, ".build" if REPO == "/repo" else ".build-alt")   # VERIF_REPO: trials against a scratch copy of the repository
 EVID = os.environ.get("VERIF_EVID_DIR") or os.path.join(VERIF, "evidence")
 REPLAYS = os.path.join(VERIF, "replays")
 NCPU = os.cpu_count() or 4
@@ -105,6 +105,12 @@ def build_harness(race=False):
     name = "vworker-race" if race else "vworker"
     outp = os.path.join(BUILD, name)
     cmd = ["go", "build", "-tags", "verif", "-o", outp]
+    if REPO != "/repo":
+        # trial against a scratch copy (VERIF_REPO): same module file with the replace directive re-targeted
+        alt = os.path.join(BUILD, "alt.mod")
+        open(alt, "w").write(open(os.path.join(hdir, "go.mod")).read().replace("=> /repo", "=> " + REPO))
+        shutil.copyfile(os.path.join(REPO, "go.sum"), os.path.join(BUILD, "alt.sum"))
+        cmd.append("-modfile=" + alt)
     if race:
         cmd.append("-race")
     cmd.append("./cmd/vworker")
